@@ -57,6 +57,10 @@ Lemma Forall2_map_eq {A B C} (f : A -> C) (g : B -> C) l l' :
   Forall2 (fun x y => f x = g y) l l' -> map f l = map g l'.
 Proof. induction 1 as [|a b l l' Hab _ IH]; cbn; [reflexivity | rewrite Hab, IH; reflexivity]. Qed.
 
+Lemma Forall2_map_l {A B C} (f : A -> C) (R : C -> B -> Prop) l l' :
+  Forall2 (fun x y => R (f x) y) l l' -> Forall2 R (map f l) l'.
+Proof. induction 1; cbn; constructor; assumption. Qed.
+
 Lemma filter_filter_comm {A} (f g : A -> bool) l : filter f (filter g l) = filter g (filter f l).
 Proof.
   induction l as [|x l IH]; cbn; [reflexivity|].
@@ -265,4 +269,446 @@ Section Lemmas.
       intros Hv Hl. unfold sort_desc. rewrite fold_insert_stable; [reflexivity | exact Hv | exact Hl | constructor | constructor].
     Qed.
   End Order.
+
+  (** ** the two "already visited" loops, generically
+
+      Both [group_same] and [group_nodes] walk the list, let some statements
+      pass, and for any other statement [a] take out of the rest everything
+      that is [same a], hand [a] and these to [pick], and go on with what is
+      left. *)
+  Section Grouping.
+    Variable pass : stmt -> bool.
+    Variable same : stmt -> stmt -> bool.
+    Variable pick : list stmt -> stmt + serr.
+
+    Fixpoint grp_gen (fuel : nat) (l : list stmt) : list stmt + serr :=
+      match fuel with
+      | O => inl l
+      | S f =>
+        match l with
+        | [] => inl []
+        | a :: rest =>
+          if pass a then
+            match grp_gen f rest with inl rs => inl (a :: rs) | inr e => inr e end
+          else
+            match (match filter (same a) rest with
+                   | [] => inl a
+                   | _ => pick (a :: filter (same a) rest)
+                   end) with
+            | inr e => inr e
+            | inl r => match grp_gen f (filter (fun b => negb (same a b)) rest) with
+                       | inl rs => inl (r :: rs)
+                       | inr e => inr e
+                       end
+            end
+        end
+      end.
+
+    (** the statements that open a group (or pass), in order: [a] stays and
+        deletes from what follows everything it absorbs *)
+    Fixpoint heads (l : list stmt) : list stmt :=
+      match l with
+      | [] => []
+      | a :: r => a :: (if pass a then heads r else filter (fun b => negb (same a b)) (heads r))
+      end.
+
+    (** what the loop produces for the head [a] of the input [l] *)
+    Definition gpick (l : list stmt) (a r : stmt) : Prop :=
+      if pass a then r = a
+      else match filter (same a) l with
+           | [] => False
+           | [x] => r = x
+           | g => pick g = inl r
+           end.
+
+    Variable K : Type.
+    Variable keqb : K -> K -> bool.
+    Hypothesis keqb_eq : forall x y, keqb x y = true <-> x = y.
+    Variable gkey : stmt -> K.
+    Hypothesis same_spec : forall a y, pass a = false -> same a y = negb (pass y) && keqb (gkey a) (gkey y).
+
+    Lemma keqb_refl x : keqb x x = true.
+    Proof. apply keqb_eq; reflexivity. Qed.
+
+    Lemma keqb_sym x y : keqb x y = keqb y x.
+    Proof.
+      destruct (keqb x y) eqn:E1, (keqb y x) eqn:E2; try reflexivity.
+      - apply keqb_eq in E1; subst. rewrite keqb_refl in E2; discriminate.
+      - apply keqb_eq in E2; subst. rewrite keqb_refl in E1; discriminate.
+    Qed.
+
+    Lemma same_self a : pass a = false -> same a a = true.
+    Proof. intros H. rewrite same_spec, H, keqb_refl by exact H. reflexivity. Qed.
+
+    Lemma same_true a y : pass a = false -> same a y = true -> pass y = false /\ gkey a = gkey y.
+    Proof.
+      intros Ha H. rewrite same_spec in H by exact Ha. apply andb_true_iff in H. destruct H as [H1 H2].
+      apply negb_true_iff in H1. apply keqb_eq in H2. auto.
+    Qed.
+
+    Lemma same_of_key a b y : pass a = false -> pass b = false -> gkey a = gkey b -> same a y = same b y.
+    Proof. intros Ha Hb E. rewrite !same_spec, E by assumption. reflexivity. Qed.
+
+    Lemma heads_filter_comm a l :
+      pass a = false ->
+      heads (filter (fun b => negb (same a b)) l) = filter (fun b => negb (same a b)) (heads l).
+    Proof.
+      intros Ha. induction l as [|y l IH]; [reflexivity|].
+      cbn [heads]. cbn [filter].
+      destruct (same a y) eqn:Ey; cbn [negb].
+      - destruct (same_true a y Ha Ey) as [Hy Ek]. rewrite Hy.
+        rewrite IH.
+        rewrite (filter_ext_In (fun b => negb (same y b)) (fun b => negb (same a b))).
+        + rewrite filter_idem. reflexivity.
+        + intros z _. rewrite (same_of_key a y z Ha Hy Ek). reflexivity.
+      - cbn [heads]. f_equal.
+        destruct (pass y); [exact IH|]. rewrite IH. apply filter_filter_comm.
+    Qed.
+
+    Lemma heads_In a l : In a (heads l) -> In a l.
+    Proof.
+      revert a; induction l as [|y l IH]; intros a; cbn; [auto|].
+      intros [->|H]; [left; reflexivity|]. right. apply IH.
+      destruct (pass y); [exact H|]. apply filter_In in H. tauto.
+    Qed.
+
+    Lemma heads_pass s l : In s l -> pass s = true -> In s (heads l).
+    Proof.
+      intros Hin Hs. induction l as [|y l IH]; [destruct Hin|]. cbn.
+      destruct Hin as [->|Hin]; [left; reflexivity|]. right.
+      destruct (pass y) eqn:Hy; [apply IH; exact Hin|].
+      apply filter_In. split; [apply IH; exact Hin|].
+      rewrite same_spec, Hs by exact Hy. reflexivity.
+    Qed.
+
+    Lemma heads_cover s l :
+      In s l -> pass s = false -> exists a, In a (heads l) /\ pass a = false /\ gkey a = gkey s.
+    Proof.
+      intros Hin Hs. induction l as [|y l IH]; [destruct Hin|]. cbn.
+      destruct Hin as [->|Hin]; [exists s; auto|].
+      destruct (IH Hin) as [a [Ha [Hpa Hk]]].
+      destruct (pass y) eqn:Hy; [exists a; auto|].
+      destruct (same y a) eqn:E.
+      - destruct (same_true y a Hy E) as [_ Ek]. exists y. split; [left; reflexivity|]. split; [exact Hy | congruence].
+      - exists a. split; [|auto]. right. apply filter_In. rewrite E. auto.
+    Qed.
+
+    Lemma heads_nodup_key l : NoDup (map gkey (filter (fun a => negb (pass a)) (heads l))).
+    Proof.
+      induction l as [|y l IH]; cbn; [constructor|].
+      destruct (pass y) eqn:Hy; cbn; [exact IH|].
+      constructor.
+      - intros Hin. apply in_map_iff in Hin. destruct Hin as [z [Ek Hz]].
+        apply filter_In in Hz. destruct Hz as [Hz Hpz]. apply filter_In in Hz. destruct Hz as [_ Hs].
+        apply negb_true_iff in Hpz, Hs. rewrite same_spec, Hpz, Ek, keqb_refl in Hs by exact Hy. discriminate.
+      - rewrite filter_filter_comm. apply NoDup_map_filter. exact IH.
+    Qed.
+
+    Lemma NoDup_map_heads {B} (g : stmt -> B) l : NoDup (map g l) -> NoDup (map g (heads l)).
+    Proof.
+      induction l as [|y l IH]; cbn; intros H; [constructor|].
+      inversion H as [|? ? Hn Hd]; subst.
+      assert (Hsub : forall z, In z (if pass y then heads l else filter (fun b => negb (same y b)) (heads l)) -> In z l).
+      { intros z Hz. apply heads_In. destruct (pass y); [exact Hz | apply filter_In in Hz; tauto]. }
+      constructor.
+      - intros Hin. apply Hn. apply in_map_iff in Hin. destruct Hin as [z [Ez Hz]].
+        apply in_map_iff. exists z. split; [exact Ez | apply Hsub; exact Hz].
+      - destruct (pass y); [apply IH; exact Hd | apply NoDup_map_filter, IH; exact Hd].
+    Qed.
+
+    Lemma filter_same_others a b rest :
+      pass a = false -> pass b = false -> same a b = false ->
+      filter (same b) (filter (fun z => negb (same a z)) rest) = filter (same b) rest.
+    Proof.
+      intros Ha Hb Hab. induction rest as [|z rest IH]; [reflexivity|]. cbn [filter].
+      destruct (same a z) eqn:Ez; cbn [negb]; [|cbn [filter]; rewrite IH; reflexivity].
+      destruct (same_true a z Ha Ez) as [Hz Ek].
+      assert (Hbz : same b z = false).
+      { rewrite same_spec, Hz by exact Hb. cbn. rewrite <- Ek.
+        rewrite same_spec, Hb in Hab by exact Ha. cbn in Hab. rewrite keqb_sym. exact Hab. }
+      rewrite Hbz. exact IH.
+    Qed.
+
+    Theorem grp_gen_spec fuel l out :
+      (List.length l <= fuel)%nat -> grp_gen fuel l = inl out -> Forall2 (gpick l) (heads l) out.
+    Proof.
+      revert l out; induction fuel as [|f IH]; intros l out Hlen H.
+      - destruct l; [|cbn in Hlen; lia]. cbn in H. injection H as <-. constructor.
+      - destruct l as [|a rest]; [cbn in H; injection H as <-; constructor|].
+        cbn [grp_gen] in H. cbn [heads]. cbn [List.length] in Hlen.
+        destruct (pass a) eqn:Ha.
+        + destruct (grp_gen f rest) as [rs|e] eqn:Er; [|discriminate]. injection H as <-.
+          constructor; [unfold gpick; rewrite Ha; reflexivity|].
+          apply (Forall2_impl_In (gpick rest)); [|apply IH; [lia | exact Er]].
+          intros b r Hb _. unfold gpick. destruct (pass b) eqn:Hpb; [auto|].
+          cbn [filter]. rewrite same_spec, Ha by exact Hpb. cbn. auto.
+        + set (grp := filter (same a) rest) in *. set (others := filter (fun b => negb (same a b)) rest) in *.
+          destruct (match grp with [] => inl a | _ :: _ => pick (a :: grp) end) as [r|e] eqn:Ep; [|discriminate].
+          destruct (grp_gen f others) as [rs|e] eqn:Er; [|discriminate]. injection H as <-.
+          constructor.
+          * unfold gpick. rewrite Ha. cbn [filter]. rewrite (same_self a Ha). fold grp.
+            destruct grp; [injection Ep as <-; reflexivity | exact Ep].
+          * unfold others. rewrite <- (heads_filter_comm a rest Ha). fold others.
+            assert (Hlo : (List.length others <= f)%nat).
+            { pose proof (filter_length_le (fun b => negb (same a b)) rest). unfold others. lia. }
+            apply (Forall2_impl_In (gpick others)); [|apply IH; [exact Hlo | exact Er]].
+            intros b r0 Hb _. unfold gpick. destruct (pass b) eqn:Hpb; [auto|].
+            apply heads_In in Hb. unfold others in Hb. apply filter_In in Hb. destruct Hb as [_ Hab].
+            apply negb_true_iff in Hab.
+            assert (Hba : same b a = false).
+            { rewrite same_spec, Ha by exact Hpb. cbn.
+              rewrite same_spec, Hpb in Hab by exact Ha. cbn in Hab. rewrite keqb_sym. exact Hab. }
+            cbn [filter]. rewrite Hba. unfold others. rewrite (filter_same_others a b rest Ha Hpb Hab). auto.
+    Qed.
+
+    (** the loop fails only where [pick] does *)
+    Lemma grp_gen_total fuel l :
+      (forall g, g <> [] -> incl g l -> exists r, pick g = inl r) -> exists out, grp_gen fuel l = inl out.
+    Proof.
+      revert l; induction fuel as [|f IH]; intros l Hp; [eexists; reflexivity|].
+      destruct l as [|a rest]; [eexists; reflexivity|]. cbn [grp_gen].
+      destruct (pass a).
+      - destruct (IH rest) as [rs ->]; [|eexists; reflexivity].
+        intros g Hg Hi. apply Hp; [exact Hg|]. intros x Hx; right; apply Hi; exact Hx.
+      - assert (Hr : exists r, (match filter (same a) rest with [] => inl a | _ :: _ => pick (a :: filter (same a) rest) end) = inl r).
+        { destruct (filter (same a) rest) eqn:E; [eexists; reflexivity|]. rewrite <- E. apply Hp; [discriminate|].
+          intros x [<-|Hx]; [left; reflexivity|]. right. apply filter_In in Hx. tauto. }
+        destruct Hr as [r ->].
+        destruct (IH (filter (fun b => negb (same a b)) rest)) as [rs ->]; [|eexists; reflexivity].
+        intros g Hg Hi. apply Hp; [exact Hg|]. intros x Hx; right. apply Hi in Hx. apply filter_In in Hx. tauto.
+    Qed.
+
+    (** the group handed to [pick] for a head is everything of its key *)
+    Lemma group_of_head a l :
+      pass a = false ->
+      filter (same a) l = filter (fun y => negb (pass y) && keqb (gkey a) (gkey y)) l.
+    Proof. intros Ha. apply filter_ext_In. intros y _. apply same_spec; exact Ha. Qed.
+  End Grouping.
+
+  (** ** comments *)
+  Lemma add_comments_of_spec dom l r :
+    add_comments_of cfg dom l = inl r ->
+    core_eq r dom /\
+    exists ks, s_comments r = s_comments dom ++ ks /\ Forall2 (fun x k => comment_of cfg x = inl k) l ks.
+  Proof.
+    revert dom; induction l as [|x l IH]; intros dom H; cbn in H.
+    - injection H as <-. split; [apply core_eq_refl|]. exists []. rewrite app_nil_r. split; [reflexivity | constructor].
+    - destruct (comment_of cfg x) as [k|e] eqn:Ek; [|discriminate].
+      destruct (IH _ H) as [Hc [ks [Hk F]]]. split.
+      + eapply core_eq_trans; [exact Hc|]. repeat split.
+      + exists (k :: ks). split; [rewrite Hk; cbn; rewrite <- app_assoc; reflexivity|]. constructor; assumption.
+  Qed.
+
+  Lemma add_comments_of_total dom l :
+    (forall x, In x l -> exists k, comment_of cfg x = inl k) -> exists r, add_comments_of cfg dom l = inl r.
+  Proof.
+    revert dom; induction l as [|x l IH]; intros dom H; cbn; [eexists; reflexivity|].
+    destruct (H x (or_introl eq_refl)) as [k ->]. apply IH. intros y Hy; apply H; right; exact Hy.
+  Qed.
+
+  (** new comments are snapshots of statements of [g] *)
+  Definition comments_from (g : list stmt) (ks : list comment) : Prop :=
+    Forall (fun k => exists x, In x g /\ comment_of cfg x = inl k) ks.
+
+  Lemma comments_from_F2 g l ks :
+    incl l g -> Forall2 (fun x k => comment_of cfg x = inl k) l ks -> comments_from g ks.
+  Proof.
+    intros Hi F. induction F as [|x k l ks Hk F IH]; [constructor|].
+    constructor; [exists x; split; [apply Hi; left; reflexivity | exact Hk]|].
+    apply IH. intros y Hy; apply Hi; right; exact Hy.
+  Qed.
+
+  (** ** first merge *)
+  Definition tok (s : stmt) : str * str := (s_prop s, s_type s).
+  Definition tok_eqb (a b : str * str) : bool := str_eqb (fst a) (fst b) && str_eqb (snd a) (snd b).
+
+  Lemma tok_eqb_eq a b : tok_eqb a b = true <-> a = b.
+  Proof.
+    destruct a as [a1 a2], b as [b1 b2]. unfold tok_eqb; cbn.
+    rewrite andb_true_iff, !str_eqb_eq. split; [intros [-> ->]; reflexivity | intros H; inversion H; auto].
+  Qed.
+
+  Lemma same_tokens_tok a b : same_tokens a b = tok_eqb (tok a) (tok b).
+  Proof. reflexivity. Qed.
+
+  (** the statement chosen for a group: one of the group, comments appended *)
+  Definition chosen_from (g : list stmt) (r : stmt) : Prop :=
+    exists s, In s g /\ core_eq r s /\
+              exists ks, s_comments r = s_comments s ++ ks /\ comments_from g ks.
+
+  Theorem decide_best_spec cnt g r : decide_best fa cfg cnt g = inl r -> chosen_from g r.
+  Proof.
+    unfold decide_best, first_such.
+    destruct (x_discard_useless cfg && useless_plus_group fa cnt g).
+    - destruct (List.find (fun s => negb (is_plus (s_card s))) g) as [s|] eqn:Ef; [|discriminate].
+      intros H; injection H as <-. apply find_some in Ef. exists s. split; [tauto|].
+      split; [apply core_eq_refl|]. exists []. rewrite app_nil_r. split; [reflexivity | constructor].
+    - set (gs := sort_desc fa cnt g).
+      set (pick := if x_keep_less_specific cfg then List.find (fun s => is_plus (s_card s)) gs
+                   else List.find (fun s => negb (is_plus (s_card s))) gs).
+      assert (Hpick : forall s, pick = Some s -> In s gs).
+      { intros s. unfold pick. destruct (x_keep_less_specific cfg); intros H; apply find_some in H; tauto. }
+      destruct (match pick with Some s => Some s | None => hd_error gs end) as [res|] eqn:Er; [|discriminate].
+      assert (Hres : In res g).
+      { apply (sort_desc_In cnt). fold gs. destruct pick as [s|]; [injection Er as <-; apply Hpick; reflexivity|].
+        destruct gs; [discriminate | injection Er as <-; left; reflexivity]. }
+      intros H. apply add_comments_of_spec in H. destruct H as [Hc [ks [Hk F]]].
+      exists res. split; [exact Hres|]. split; [exact Hc|]. exists ks. split; [exact Hk|].
+      eapply comments_from_F2; [|exact F]. intros x Hx. apply filter_In in Hx. apply (sort_desc_In cnt). tauto.
+  Qed.
+
+  (** [decide_best] has two error sites ([SEValue]): an empty group, and a
+      comment whose token cannot be rendered.  Neither the "useless +" branch
+      nor the choice of the survivor can fail on a non-empty group. *)
+  Theorem decide_best_total cnt g :
+    g <> [] -> (forall x, In x g -> exists k, comment_of cfg x = inl k) ->
+    exists r, decide_best fa cfg cnt g = inl r.
+  Proof.
+    intros Hne Hcom. unfold decide_best, first_such.
+    destruct (x_discard_useless cfg && useless_plus_group fa cnt g) eqn:Eu.
+    - apply andb_true_iff in Eu. destruct Eu as [_ Eu]. unfold useless_plus_group in Eu.
+      destruct g as [|a [|b [|c g]]]; try discriminate.
+      apply andb_true_iff in Eu. destruct Eu as [_ Eo]. unfold count_plus in Eo. cbn in Eo. cbn.
+      destruct (is_plus (s_card a)); cbn in *; [|eexists; reflexivity].
+      destruct (is_plus (s_card b)); cbn in *; [discriminate | eexists; reflexivity].
+    - set (gs := sort_desc fa cnt g).
+      assert (Hgs : gs <> []).
+      { intros E. apply Hne. apply length_zero_iff_nil. rewrite <- (sort_desc_length cnt). fold gs. rewrite E. reflexivity. }
+      assert (Hex : forall p : option stmt,
+                 exists res, (match p with Some s => Some s | None => hd_error gs end) = Some res).
+      { intros [s|]; [eexists; reflexivity|]. destruct gs; [contradiction | eexists; reflexivity]. }
+      match goal with |- context [match ?p with Some s => Some s | None => _ end] =>
+        destruct (Hex p) as [res Hres] end.
+      rewrite Hres.
+      apply add_comments_of_total. intros x Hx. apply filter_In in Hx. apply Hcom.
+      apply (sort_desc_In cnt). tauto.
+  Qed.
+
+  Theorem decide_best_nil cnt : decide_best fa cfg cnt [] = inr SEValue.
+  Proof.
+    unfold decide_best, useless_plus_group. rewrite andb_false_r. cbn.
+    destruct (x_keep_less_specific cfg); reflexivity.
+  Qed.
+
+  Lemma group_same_gen fuel cnt l :
+    group_same fa cfg fuel cnt l = grp_gen (fun _ => false) same_tokens (decide_best fa cfg cnt) fuel l.
+  Proof.
+    revert l; induction fuel as [|f IH]; intros l; [reflexivity|].
+    destruct l as [|a rest]; [reflexivity|]. cbn [group_same grp_gen]. rewrite IH. reflexivity.
+  Qed.
+
+  Lemma same_tokens_spec a y :
+    (fun _ : stmt => false) a = false -> same_tokens a y = negb ((fun _ : stmt => false) y) && tok_eqb (tok a) (tok y).
+  Proof. intros _. reflexivity. Qed.
+
+  (** first occurrences of a list of keys *)
+  Fixpoint dedup (l : list (str * str)) : list (str * str) :=
+    match l with
+    | [] => []
+    | x :: r => x :: filter (fun y => negb (tok_eqb x y)) (dedup r)
+    end.
+
+  Lemma heads_dedup l : map tok (heads (fun _ => false) same_tokens l) = dedup (map tok l).
+  Proof.
+    induction l as [|a l IH]; [reflexivity|]. cbn [heads map dedup]. f_equal. rewrite <- IH.
+    generalize (heads (fun _ => false) same_tokens l). intros h.
+    induction h as [|b h IHh]; [reflexivity|]. cbn [filter map].
+    rewrite same_tokens_tok. destruct (tok_eqb (tok a) (tok b)); cbn [negb map]; rewrite IHh; reflexivity.
+  Qed.
+
+  Lemma dedup_In x l : In x (dedup l) <-> In x l.
+  Proof.
+    revert x; induction l as [|y l IH]; intros x; cbn; [tauto|].
+    rewrite filter_In, IH. split; [tauto|]. intros [->|H]; [auto|].
+    destruct (tok_eqb y x) eqn:E; [apply tok_eqb_eq in E; auto | right; auto].
+  Qed.
+
+  Lemma dedup_NoDup l : NoDup (dedup l).
+  Proof.
+    induction l as [|y l IH]; cbn; [constructor|]. constructor.
+    - intros H. apply filter_In in H. destruct H as [_ H]. apply negb_true_iff in H.
+      assert (tok_eqb y y = true) by (apply tok_eqb_eq; reflexivity). congruence.
+    - apply NoDup_filter. exact IH.
+  Qed.
+
+  (** what [group_same] does with the statements of one (property, type) pair *)
+  Definition same_pick (cnt : N) (l : list stmt) (t : str * str) (r : stmt) : Prop :=
+    match filter (fun s => tok_eqb t (tok s)) l with
+    | [] => False
+    | [a] => r = a
+    | g => decide_best fa cfg cnt g = inl r
+    end.
+
+  Lemma same_pick_chosen cnt l t r :
+    same_pick cnt l t r -> chosen_from (filter (fun s => tok_eqb t (tok s)) l) r.
+  Proof.
+    unfold same_pick. destruct (filter (fun s => tok_eqb t (tok s)) l) as [|a [|b g]] eqn:E; [tauto| |].
+    - intros ->. exists a. split; [left; reflexivity|]. split; [apply core_eq_refl|].
+      exists []. rewrite app_nil_r. split; [reflexivity | constructor].
+    - apply decide_best_spec.
+  Qed.
+
+  (** Main statement for the first merge: with enough fuel the result has one
+      statement per distinct (property, type) pair of the input, in order of
+      first occurrence, and the statement of a pair is the only input statement
+      of that pair, or what [decide_best] makes of all of them (in input
+      order). *)
+  Theorem group_same_spec fuel cnt l out :
+    (List.length l <= fuel)%nat -> group_same fa cfg fuel cnt l = inl out ->
+    Forall2 (same_pick cnt l) (dedup (map tok l)) out.
+  Proof.
+    intros Hlen H. rewrite group_same_gen in H.
+    pose proof (grp_gen_spec _ _ _ _ tok_eqb tok_eqb_eq tok same_tokens_spec fuel l out Hlen H) as F.
+    rewrite <- heads_dedup.
+    apply Forall2_map_l.
+    eapply Forall2_impl_In; [|exact F]. intros a r _ _ Hp. unfold gpick in Hp. unfold same_pick.
+    rewrite (filter_ext_In (fun s => tok_eqb (tok a) (tok s)) (same_tokens a)); [exact Hp | intros; reflexivity].
+  Qed.
+
+  Lemma same_pick_tok cnt l t r : same_pick cnt l t r -> tok r = t.
+  Proof.
+    intros H. apply same_pick_chosen in H. destruct H as [s [Hs [Hc _]]].
+    apply filter_In in Hs. destruct Hs as [_ Hs]. apply tok_eqb_eq in Hs. rewrite Hs. unfold tok.
+    rewrite (core_eq_type _ _ Hc). destruct Hc as (_ & -> & _). reflexivity.
+  Qed.
+
+  Corollary group_same_toks fuel cnt l out :
+    (List.length l <= fuel)%nat -> group_same fa cfg fuel cnt l = inl out ->
+    map tok out = dedup (map tok l).
+  Proof.
+    intros Hlen H. pose proof (group_same_spec fuel cnt l out Hlen H) as F. symmetry.
+    rewrite <- (map_id (dedup (map tok l))). apply Forall2_map_eq.
+    eapply Forall2_impl_In; [|exact F]. intros t r _ _ Hp. symmetry. apply (same_pick_tok _ _ _ _ Hp).
+  Qed.
+
+  Corollary group_same_NoDup fuel cnt l out :
+    (List.length l <= fuel)%nat -> group_same fa cfg fuel cnt l = inl out -> NoDup (map tok out).
+  Proof. intros Hlen H. rewrite (group_same_toks fuel cnt l out Hlen H). apply dedup_NoDup. Qed.
+
+  Corollary group_same_out fuel cnt l out r :
+    (List.length l <= fuel)%nat -> group_same fa cfg fuel cnt l = inl out -> In r out ->
+    chosen_from (filter (fun s => tok_eqb (tok r) (tok s)) l) r.
+  Proof.
+    intros Hlen H Hr. destruct (Forall2_In_r _ _ _ _ (group_same_spec fuel cnt l out Hlen H) Hr) as [t [_ Hp]].
+    rewrite (same_pick_tok _ _ _ _ Hp). apply same_pick_chosen with (cnt := cnt). exact Hp.
+  Qed.
+
+  Corollary group_same_cover fuel cnt l out s :
+    (List.length l <= fuel)%nat -> group_same fa cfg fuel cnt l = inl out -> In s l ->
+    exists r, In r out /\ tok r = tok s.
+  Proof.
+    intros Hlen H Hs.
+    assert (Ht : In (tok s) (dedup (map tok l))) by (apply dedup_In, in_map; exact Hs).
+    destruct (Forall2_In_l _ _ _ _ (group_same_spec fuel cnt l out Hlen H) Ht) as [r [Hr Hp]].
+    exists r. split; [exact Hr | apply (same_pick_tok _ _ _ _ Hp)].
+  Qed.
+
+  (** [group_same] fails only if a comment token cannot be rendered *)
+  Theorem group_same_total fuel cnt l :
+    (forall x, In x l -> exists k, comment_of cfg x = inl k) ->
+    exists out, group_same fa cfg fuel cnt l = inl out.
+  Proof.
+    intros Hc. rewrite group_same_gen. apply grp_gen_total. intros g Hg Hi.
+    apply decide_best_total; [exact Hg|]. intros x Hx. apply Hc, Hi, Hx.
+  Qed.
 End Lemmas.
